@@ -190,6 +190,17 @@ func c10list(k *mon.Case, f *sfnt.Font, n int, info *fontgen.Info) []glyph.ID {
 		k.Class("list:ligature-chain-components-only")
 		return append(list, in...)
 	}
+	if n > 262 && r.IntN(3) == 0 {
+		// just below 256 listed glyphs, so that the glyphs the subsetter
+		// appends (components, ligatures) get ids from 256 on (one-byte glyph
+		// ids in format 0 character maps and CFF encodings end there)
+		m := 244 + r.IntN(13)
+		for _, i := range r.Perm(n - 1)[:m-1] {
+			list = append(list, glyph.ID(i+1))
+		}
+		k.Class("list:just-below-256")
+		return list
+	}
 	switch r.IntN(6) {
 	case 0: // only .notdef
 	case 1: // everything, in order
@@ -222,6 +233,9 @@ func runC10(c *mon.Ctx) {
 		}
 		if k.Index/3%7 == 0 {
 			o.MinGlyphs, o.MaxGlyphs = 100, 300
+			if k.Index/21%2 == 0 {
+				o.MinGlyphs = 270 // more than 256 glyphs for certain
+			}
 		}
 		f, info := fontgen.Font(r, o)
 		if f.CreationTime.IsZero() && f.ModificationTime.IsZero() {
@@ -744,7 +758,7 @@ func runC10(c *mon.Ctx) {
 		}
 		k.Class("cff-outlines-subset:" + info.Kind)
 	})
-	c.Require("list:ligature-chain-components-only", "kind=glyf", "kind=cff", "kind=cid", "cmap-compared", "encoding-compared", "kerning-compared", "gsub-rules-compared",
+	c.Require("list:just-below-256", "list:ligature-chain-components-only", "kind=glyf", "kind=cff", "kind=cid", "cmap-compared", "encoding-compared", "kerning-compared", "gsub-rules-compared",
 		"written-and-read-back", "original-font-unchanged", "extras-appended:glyf", "cff-outlines-subset:cff", "cff-outlines-subset:cid")
 }
 
